@@ -176,6 +176,19 @@ def fixed_family():
             P(mode, 2, ["expire.0.1.8", "with.0", "with.1", "setnx.1.0.2.-", "end", "end", "incr.1.1", "with.1", "get.0.2", "end"], data=DATA4,
               obj=0, form=form, exc="runtime"),
         ]
+    # EXPLICIT `await tx.commit()` / `await tx.rollback()` in the middle of the body: the transaction goes on - with an empty buffer and
+    # no locks - so later commands are buffered and lock again, and a later failure rolls THEM back and releases THEIR locks
+    # (every fault position after the explicit call; what an explicit commit applied stays)
+    for i, mode in enumerate(["fast", "locked", "serializable"]):
+        out += [
+            P(mode, 1, ["set.0.0.1.-", "rollback", "set.0.1.2.-", "get.0.3"], data=DATA1),
+            P(mode, 1, ["set.0.0.1.-", "commit", "set.0.1.2.-", "get.0.3"], data=DATA1, exc="runtime"),
+            P(mode, 1, ["set.0.0.1.8", "incr.0.1", "commit", "del.0.2", "rollback", "set.0.3.4.-", "raise"], data=DATA1,
+              bexc="cancel" if i == 2 else None),
+            P(mode, 2, ["set.0.0.1.-", "set.1.0.2.-", "commit", "set.1.1.3.-", "with.0", "rollback", "end", "incr.0.1"], data=DATA2, obj=0),
+            P(mode, 1, ["with.0", "set.0.0.1.-", "commit", "set.0.1.2.-", "end", "expire.0.1.8", "get.0.3"], data=DATA3, obj=0),
+            P(mode, 2, ["get.0.1", "rollback", "set.0.0.1.-", "set.1.0.2.-", "rollback", "incr.1.1", "commit", "del.0.1"], data=DATA2),
+        ]
     # the kind of the BaseException-only failures alternates over the family
     for i, p in enumerate(out):
         if i % 3 == 1 and p["bkind"] == "cancel":
@@ -260,6 +273,12 @@ def gen_program(rng):
         body = body[:3]
     if rng.random() < 0.2:
         body.append("raise")
+    form = rng.choice(["ctx", "decor"])
+    if rng.random() < 0.3 and body:
+        # explicit tx.commit() / tx.rollback() somewhere in the middle of the body
+        form = "ctx"
+        for _ in range(rng.choice([1, 1, 2])):
+            body.insert(rng.randrange(0, len(body)), rng.choice(["commit", "rollback", "rollback"]))
     obj = None
     if rng.random() < 0.35:
         # nested blocks: wrap one or two segments (properly nested or disjoint by construction: the second wrap is applied to
@@ -272,7 +291,7 @@ def gen_program(rng):
             cand = body[:lo] + [f"with.{o}"] + body[lo:hi] + ["end"] + body[hi:]
             if tf.valid_body(cand) and tf.valid_body(cand[lo + 1:hi + 1]):
                 body = cand
-    return P(mode, nb, body, timeout=timeout, form=rng.choice(["ctx", "decor"]), obj=obj,
+    return P(mode, nb, body, timeout=timeout, form=form, obj=obj,
              exc=rng.choice(["interaction", "runtime"]), data=data, flocks=flocks, holders=holders,
              bkind=rng.choice(["cancel", "cancel", "base"]), bexc=rng.choice([None, None, "cancel"]))
 
@@ -410,6 +429,22 @@ def classify(prog, obs):
             st.add("fault_while_multi_key_command_takes_its_locks")
             if any(lo <= j < hi for j in blocked):
                 st.add("fault_in_multi_key_command_that_had_to_wait_for_a_lock")
+    # explicit tx.commit() / tx.rollback() in the body
+    for what, at in obs.get("explicit") or []:
+        st.add(f"explicit_{what}_in_body")
+        later = [i for i in failed if i >= at]
+        ends = [j for j in range(at, len(tr)) if tr[j].split(".")[1] not in ("unlock", "setmany", "delmany")]
+        after_it = ends[0] if ends else len(tr)           # first command after the commands of the explicit call itself
+        if any(at <= i < after_it for i in failed):
+            st.add(f"fault_inside_explicit_{what}")
+        if any(after_it <= i < body_end for i in failed):
+            st.add(f"fault_in_body_after_explicit_{what}")
+            if any(tr[j].split(".")[1] == "setlock" and j not in failed for j in range(after_it, body_end)):
+                st.add(f"lock_taken_after_explicit_{what}_then_body_fault")         # class of seeded C16-13 (rollback)
+        if obs["body_raised"] and obs["exc"] == "body" and not later:
+            st.add(f"body_raised_after_explicit_{what}")
+    if not obs.get("base_defined", True):
+        st.add("explicit_commit_failed_half_way")
     # nested blocks on shared context objects
     toks = prog["body"]
     if tf.valid_body(toks):
@@ -563,14 +598,14 @@ def shrink(prog, faults, rels, clause):
         return dict(best[0], body=list(body))
 
     depth = len(best[1]) or 1
-    body = ddmin(best[0]["body"], lambda b: tf.valid_body(b) and find_violation(with_body(b), depth, clause) is not None)
+    body = ddmin(best[0]["body"], lambda b: tf.valid_prog(with_body(b)) and find_violation(with_body(b), depth, clause) is not None)
     # a `with` and its `end` that do not matter
     n = 0
     while n < len(body):
         if body[n].split(".")[0] == "with":
             j = tf.matching_end(body, n)
             b2 = body[:n] + body[n + 1:j] + body[j + 1:]
-            if find_violation(with_body(b2), depth, clause) is not None:
+            if tf.valid_prog(with_body(b2)) and find_violation(with_body(b2), depth, clause) is not None:
                 body = b2
                 continue
         n += 1
@@ -790,6 +825,8 @@ def run(chk: Check) -> int:
             hist_prog["with_holders"] = hist_prog.get("with_holders", 0) + 1
         if any(c.split(".")[0] in ("setmany", "delmany") for c in prog["body"]):
             hist_prog["with_multi_key_commands"] = hist_prog.get("with_multi_key_commands", 0) + 1
+        if any(c in ("commit", "rollback") for c in prog["body"]):
+            hist_prog["with_explicit_commit_or_rollback"] = hist_prog.get("with_explicit_commit_or_rollback", 0) + 1
         if any(c.split(".")[0] == "with" for c in prog["body"]):
             hist_prog["with_nested_blocks"] = hist_prog.get("with_nested_blocks", 0) + 1
         if prog.get("obj") is not None and any(c == f"with.{prog['obj']}" for c in prog["body"]):
@@ -841,7 +878,9 @@ def run(chk: Check) -> int:
                 "earlier in the transaction, of a missing key, with timeout 0), incr with a ttl, set with a ttl, set(exist=True|False), NESTED blocks on "
                 "shared context objects (ONE cache.transaction() object entered again inside its own transaction - once, twice nested, twice in "
                 "sequence -, first entered inside a decorated function, next to other shared objects and one-block objects; bodies going on after "
-                "the inner block - every fault position there -, raising inside it, ending with it), contention "
+                "the inner block - every fault position there -, raising inside it, ending with it), EXPLICIT await tx.commit() / await tx.rollback() in the middle of the body followed by more "
+                "commands (which are buffered and lock again; every fault position inside the explicit call and after it; the store after a "
+                "failed body is compared with the store as of the last explicit commit), contention "
                 "with a lock held for ever, contention with 1-2 holders that commit or roll back) plus programs generated from VERIF_SEED "
                 "until the budget is used. "
                 "Exhaustive per program, not over programs. A case is non-trivial iff at least one command actually failed or the body "
@@ -866,8 +905,8 @@ def run(chk: Check) -> int:
                    "Task.cancel() from another task / the deadline bookkeeping of asyncio.timeout() (the CancelledError is injected as "
                    "what the failing command raises); "
                    "arbitrary interleavings of several tasks (C05; here other tasks only hold and release locks at command "
-                   "granularity); a holder that TAKES a lock while the victim's block runs; a context object shared by two TASKS (C05); explicit "
-                   "tx.commit()/rollback() inside the body; the pass-through commands of TransactionBackend (set_add / tags, slice_incr, set_raw, "
+                   "granularity); a holder that TAKES a lock while the victim's block runs; a context object shared by two TASKS (C05); an exception of an explicit "
+                   "tx.commit()/rollback() caught by the body; the pass-through commands of TransactionBackend (set_add / tags, slice_incr, set_raw, "
                    "incr_bits, set_remove, set_pop, clear: not transactional by design); commands other than set (with ttl / exist=) / incr (with ttl) / get / delete / "
                    "expire / set_many / delete_many (single backend per multi-key command; no get_expire / exists / delete_match / get_many "
                    "as body commands); programs with contention carry no TTLs and no expire (their clock is symbolic); the 0.1 s sleeps of the lock wait loop are symbolic (count of attempts), so the "
